@@ -750,6 +750,23 @@ pub fn gen_edit(rng: &mut Rng, run: u64, thorough: bool) -> Trace {
         },
     };
     let mut pending_undo = 0usize;
+    if forced.is_none() && rng.chance(1, 5) {
+        // a history on a hidden and / or locked layer: writes through the layer API are refused there, while
+        // undo records that touch the rows directly are not
+        let l = rng.range(0, layers - 1);
+        t.events.push(Ev::Op {
+            name: "set_current_layer".into(),
+            args: vec![l],
+            hex: String::new(),
+        });
+        t.events.push(Ev::Op {
+            name: "update_layer_properties".into(),
+            args: vec![l, *rng.pick(&[1i64, 4, 5, 3, 6]), 0, 0],
+            hex: String::new(),
+        });
+        pending_undo += 1;
+        t.labels.push("mood=hidden_or_locked".into());
+    }
     for i in 0..len {
         // steering between operations
         if rng.chance(1, 4) {
@@ -798,6 +815,16 @@ pub fn gen_edit(rng: &mut Rng, run: u64, thorough: bool) -> Trace {
         if rng.chance(1, 4) {
             let j = 1 + rng.usize(pending_undo.min(4));
             for _ in 0..j {
+                // the user may have selected another layer (or moved the caret) before pressing undo: an undo
+                // record has to carry what it needs, not read it from the current selection
+                if rng.chance(1, 3) {
+                    let s = if rng.chance(2, 3) { "set_current_layer" } else { STEER[rng.usize(STEER.len())].0 };
+                    t.events.push(Ev::Op {
+                        name: s.into(),
+                        args: gen_args(rng, s, w, h, layers),
+                        hex: String::new(),
+                    });
+                }
                 t.events.push(Ev::Undo);
             }
             let redo = rng.usize(j + 1);
